@@ -516,13 +516,6 @@ func TestC14(t *testing.T) {
 	})
 }
 
-func headStr(s string, n int) string {
-	if len(s) > n {
-		return s[:n]
-	}
-	return s
-}
-
 // filterStacks keeps the goroutines of a SIGQUIT dump that are inside jiva code.
 func filterStacks(dump string) string {
 	var out []string
